@@ -89,7 +89,7 @@ def _rr_calls(facts, body):
                     ev = elem_value_of(tgt)
                     item = _binding_item(m)
                     if ev and param_path(ev[0]) and param_path(ev[0])[0] == 1 and item is not None and whole_iteration_over(item[1], 1):
-                        out.append(((param_path(ev[0])[1][0], (ev[2],) + tuple(ev[3])), b2, cb, cit, m))
+                        out.append(((param_path(ev[0])[1][0], (ev[2],) + tuple(ev[3])), b2, cb, cit, dict(m, **{'_parent_bb': bb})))
     return out
 
 
@@ -110,16 +110,33 @@ def rr_cover(ctx):
                 want.add((f['name'], pos))
         calls = _rr_calls(facts, body)
         have = {}
+        rc_body = Reach(facts, body, Evaluator(facts))
         for d, bb, b, it, m in calls:
             rc = Reach(facts, b, Evaluator(facts))
-            if m.get('loop') or rc.must_pass([bb]):
+            # a reset inside an adaptor closure counts only if the adaptor itself runs on every path of reset_remove
+            outer_ok = '_parent_bb' not in m or rc_body.must_pass([m['_parent_bb']])
+            if (m.get('loop') or rc.must_pass([bb])) and outer_ok:
                 have[d] = (bb, b, it)
         missing = sorted(want - set(have))
         effs = effects(facts, body)
         stored = set(e.path[0] for e in effs if e.param == 1 and e.path)
         not_stored = sorted(set(f for f, p in want) - stored)
         det = {'expected': sorted(map(str, want)), 'found': sorted(map(str, have))}
-        if missing:
+        wiped = None
+        itb = interp(facts, body)
+        for w in list(itb.writes.values()):
+            tgt = loc_target(itb, w.loc)
+            if tgt and tgt[0] == 1 and tgt[2] == 'w' and w.kind == 'assign':
+                old_val = ('param', 1)
+                for f_ in tgt[1]:
+                    old_val = ('field', old_val, f_)
+                if not any(versionless(st) == old_val or (param_path(st) and param_path(st)[0] == 1 and tuple(param_path(st)[1][:len(tgt[1])]) == tuple(tgt[1]))
+                           for st in subterms(drop_lv(w.val))):
+                    wiped = ('.'.join(tgt[1]) or 'the whole state', w.line)
+        if wiped and not missing:
+            ctx.fail(inst, body, 'reset_remove overwrites %s at line %d with a value that does not derive from its old content: it forgets more than the '
+                     'argument clock covers' % wiped, line=wiped[1], details=det)
+        elif missing:
             f, pos = missing[0]
             ctx.fail(inst, body, 'reset_remove does not reset %s%s with the argument clock on every path (dots covered by the clock survive there)'
                      % (f, ''.join('.' + p for p in pos)), details=det)
